@@ -560,6 +560,8 @@ def gen_faults(seed: int, plan: dict, res0: dict):
             if not ks:
                 continue
             f = {"op": i, "call": n, "kind": rng.choice(ks)}
+            if rng.chance(0.3):
+                f["sticky"] = rng.choice([1, 1, 2, 4])  # the condition persists for this many operations
             if sk == "write":
                 f["frac"] = rng.choice([0.0, 0.1, 0.5, 0.9, 0.999])
         else:
